@@ -33,7 +33,8 @@ ASSUMPTIONS = ["the eager Python evaluation of the same generated program is the
 BUDGET = {"quick": 40, "thorough": 400}
 FLOORS = {"quick": {"evaluations": 3000, "distinct_nontrivial": 2000,
                     "counters": {"programs_compared": 2500, "pure_key_pairs_checked": 1500, "nout_unpackings": 200,
-                                 "key_names_colliding_with_literals": 150, "attr_accesses": 500, "method_calls": 500}},
+                                 "key_names_colliding_with_literals": 150, "attr_accesses": 300, "method_calls": 500,
+                                 "noncommutative_operator_steps": 400, "reflected_operator_steps": 200}},
           "thorough": {"evaluations": 40000, "distinct_nontrivial": 25000, "counters": {"programs_compared": 35000}}}
 EXHAUSTIVE_SPACE = None
 CLAIM = ("Every generated delayed program computed to exactly the value of the same program run eagerly; every pair of "
@@ -53,6 +54,46 @@ class DC:
 
 
 NT = namedtuple("NT", ["a", "b", "val"])
+
+
+class Tag:
+    """A value whose every binary operator is NON-commutative: the result records which operand was on
+    the left.  Any operator (plain or reflected) that swaps, drops or duplicates operands changes the value."""
+
+    def __init__(self, v):
+        self.v = v
+
+    def __eq__(self, o):
+        return isinstance(o, Tag) and self.v == o.v
+
+    def __hash__(self):
+        return hash(("Tag", self.v))
+
+    def __repr__(self):
+        return "Tag(%r)" % (self.v,)
+
+    def __dask_tokenize__(self):
+        return ("Tag", self.v)
+
+
+def _tagop(name):
+    def fwd(self, o):
+        if not isinstance(o, Tag):
+            return NotImplemented      # lets Python dispatch to a Delayed operand's reflected operator
+        return Tag((name, self.v, o.v))
+
+    def rev(self, o):
+        if not isinstance(o, Tag):
+            return NotImplemented
+        return Tag((name, o.v, self.v))
+    return fwd, rev
+
+
+TAG_OPS = ("add", "sub", "mul", "truediv", "floordiv", "mod", "pow", "and", "or", "xor", "lshift", "rshift", "matmul")
+for _n in TAG_OPS:
+    _f, _r = _tagop(_n)
+    setattr(Tag, "__%s__" % _n, _f)
+    setattr(Tag, "__r%s__" % _n, _r)
 
 
 def f_add(a, b):
@@ -111,8 +152,10 @@ class Gen:
     # ---- leaves -------------------------------------------------------------------
     def leaf(self):
         r = self.rng
-        k = r.choice(("int", "int", "str", "list", "dict", "tuple", "set", "slice", "dc", "nt"))
-        if k == "int":
+        k = r.choice(("int", "int", "str", "list", "dict", "tuple", "set", "slice", "dc", "nt", "tag", "tag"))
+        if k == "tag":
+            v = Tag(r.randint(0, 9))
+        elif k == "int":
             v = r.randint(-3, 9)
         elif k == "str":
             v = r.choice(POOL + ["hello", "a-b", ""])
@@ -210,6 +253,10 @@ class Gen:
             choices += ["attr", "attr", "getitem"]
         elif isinstance(e, set):
             choices += ["len", "setop"]
+        if isinstance(e, Tag):
+            choices = ["tagop", "tagop", "tagop", "tagop", "ident", "container"]
+        if isinstance(e, dict):
+            choices += ["dictor", "dictor"]
         c = r.choice(choices)
         self.ctx.op(c)
         try:
@@ -330,6 +377,28 @@ class Gen:
                 names = [f.name for f in dataclasses.fields(e)] if isinstance(e, DC) else list(e._fields)
                 a = r.choice(names)
                 return getattr(e, a), getattr(l, a)
+            if c == "tagop":
+                # every operator in both operand orders, with a plain / delayed / Delayed-on-the-right partner
+                self.ctx.count("noncommutative_operator_steps")
+                name = r.choice(TAG_OPS)
+                op = {"and": operator.and_, "or": operator.or_}.get(name) or getattr(operator, name)
+                e2 = Tag(r.randint(10, 19))
+                l2 = self.delayed(e2) if r.random() < 0.4 else e2
+                self.ops += 1
+                if r.random() < 0.5:
+                    return op(e, e2), op(l, l2)
+                self.ctx.count("reflected_operator_steps")
+                return op(e2, e), op(l2, l)      # plain (or delayed) LEFT operand, Delayed on the right
+            if c == "dictor":
+                # dict union is order sensitive on shared keys
+                self.ctx.count("noncommutative_operator_steps")
+                keys = list(e)[:2] + [r.choice(POOL)]
+                e2 = {k: 100 + i for i, k in enumerate(keys)}
+                self.ops += 1
+                if r.random() < 0.5:
+                    return e | e2, l | e2
+                self.ctx.count("reflected_operator_steps")
+                return e2 | e, e2 | l
             if c == "setop":
                 self.ops += 1
                 return self.call(sorted, [e | {9}], [l | {9}])
